@@ -17,6 +17,7 @@ limitations under the License.
 #pragma once
 #include <photon/common/callback.h>
 #include <photon/common/timeout.h>
+#include <photon/common/verif-hooks.h>
 #include <photon/thread/stack-allocator.h>
 
 #include <atomic>
@@ -214,6 +215,7 @@ namespace photon
     int thread_migrate(thread* th, vcpu_base* vcpu);
 
     inline void spin_wait() {
+        PHOTON_VERIF_SP(PHOTON_VERIF_SP_BUSYWAIT, nullptr);
 #ifdef __aarch64__
         asm volatile("isb" : : : "memory");
 #else
@@ -222,6 +224,7 @@ namespace photon
     }
 
     inline void spin_wait_n(uint32_t n) {
+        PHOTON_VERIF_SPIN_N_RETURN();
         for (uint32_t i = 0; i < n; ++i) {
             spin_wait();
         }
@@ -230,6 +233,7 @@ namespace photon
     class spinlock {
     public:
         int lock() {
+            PHOTON_VERIF_SP(PHOTON_VERIF_SP_LOCK, this);
             uint32_t delay = 1;
             constexpr uint32_t max_delay = 1024;
             while (unlikely(xchg())) {
@@ -241,6 +245,7 @@ namespace photon
             return 0;
         }
         int try_lock() {
+            PHOTON_VERIF_SP(PHOTON_VERIF_SP_TRYLOCK, this);
             return (likely(!load()) &&
                     likely(!xchg())) ? 0 : -1;
         }
@@ -249,6 +254,7 @@ namespace photon
         }
         void unlock() {
             _lock.store(false, std::memory_order_release);
+            PHOTON_VERIF_SP(PHOTON_VERIF_SP_UNLOCK, this);
         }
     protected:
         std::atomic_bool _lock = {false};
